@@ -62,6 +62,24 @@ def main():
     ctx = Ctx(pid, tier, seed, mod.LEVEL)
     if a.replay:
         rec = json.load(open(a.replay))
+        if isinstance(rec.get("case"), dict) and rec["case"].get("__env__") == "hostile" and os.environ.get("VERIF_ENVMODE") != "hostile":
+            # the case was seen in the hostile environment only: replay it there (fresh interpreter, python -O, DEBUG logging, ...)
+            from mc.core import HOSTILE_ENV
+            import tempfile
+
+            d = tempfile.mkdtemp(prefix="verif_hostile_replay_")
+            try:
+                r = subprocess.run([sys.executable, "-O", "-B", os.path.abspath(__file__), pid, "--tier", tier, "--replay", os.path.abspath(a.replay)],
+                                   env=dict(os.environ, **HOSTILE_ENV), cwd=d)
+            finally:
+                import shutil
+
+                shutil.rmtree(d, ignore_errors=True)
+            return r.returncode
+        if os.environ.get("VERIF_ENVMODE") == "hostile":
+            from mc.core import enter_hostile_process
+
+            enter_hostile_process()
         ctx.log("replaying", a.replay, "key=", rec.get("key"))
         if isinstance(rec["case"], dict) and rec["case"].get("kind") == "exception":
             print("replay: this violation was an exception inside a worker chunk; re-running the whole check")
